@@ -356,7 +356,11 @@ func provenLower(at ssa.Instruction, expr ssa.Value) (int64, bool) {
 // helper at the one call site that is being looked at): a guard D >= t+1 gives
 // expr >= t+1 + (expr - D) whenever the remainder expr - D consists of known atoms only.
 func provenLowerWith(at ssa.Instruction, expr ssa.Value, known map[string]int64) (int64, bool) {
-	e := linearB(expr, 0)
+	return provenLowerLin(at, linearB(expr, 0), known)
+}
+
+// provenLowerLin: the same for an expression given as a linear form over the atoms of at's function.
+func provenLowerLin(at ssa.Instruction, e linform, known map[string]int64) (int64, bool) {
 	if !e.ok {
 		return 0, false
 	}
